@@ -174,20 +174,26 @@ def build_pool(seed, tier):
     groups = []
     failing_sql = set(q for _, q in corpus.FAILING)
     stateful = corpus.STATEFUL + [(None, q) for q in corpus.SOFT_KEYWORDS] + corpus.FAILING
-    for _gi in range(14 if tier == "quick" else 60):
+    for _gi in range(18 if tier == "quick" else 80):
         kind = rng.choice(["generate", "generate", "generate", "parse", "parse", "tokenize", "transpile"])
         members = []
         if kind == "generate":
             w = with_settings(rng.choice(hot_writes))
             opts = dict(rng.choice(hot_opts + [{"unsupported_level": "RAISE"}, {"unsupported_level": "RAISE"}, {"unsupported_level": "IMMEDIATE"}]))
             srcs = [x for x in corpus.STATEFUL + corpus.GENERAL if x[1] not in failing_sql]
-            for d, q in rng.sample(corpus.SIGNATURES, 2) + rng.sample(srcs, 6):
-                members.append({"op": "generate", "sql": q, "read": d, "write": w, "opts": opts})
+            fams = corpus.stateful_families()
+            picked = [x for f in rng.sample(sorted(fams), 2) for x in fams[f]]
+            for d, q in picked + rng.sample(srcs, 3):
+                if q not in failing_sql:
+                    members.append({"op": "generate", "sql": q, "read": d, "write": w, "opts": opts})
         elif kind == "parse":
             rd = rng.choice([None, "bigquery", "snowflake", "duckdb", "postgres", "spark", "oracle", "tsql", "mysql"])
             lvl = rng.choice([None, "WARN", "WARN", "IGNORE", "RAISE", "IMMEDIATE"])
-            for d, q in rng.sample(corpus.SPECULATIVE, 3) + rng.sample(corpus.FAILING, 3) + rng.sample(stateful, 3):
-                members.append({"op": "parse", "sql": q, "read": rd if rng.random() < 0.7 else d, "error_level": lvl})
+            fams = corpus.stateful_families()
+            picked = [x for f in rng.sample(sorted(fams), 2) for x in fams[f]]
+            own = rng.random() < 0.5  # parse every statement in its own dialect (several reused parsers) or all in one
+            for d, q in picked + rng.sample(corpus.FAILING, 3):
+                members.append({"op": "parse", "sql": q, "read": d if own else rd, "error_level": lvl})
         elif kind == "tokenize":
             rd = rng.choice([None, "bigquery", "snowflake", "duckdb", "postgres", "mysql", "tsql"])
             for d, q in rng.sample(stateful, 8):
